@@ -17,7 +17,7 @@ func init() {
 		Level:       "other",
 		Explanation: "Decides that the player runner's automation cannot volunteer chips: (R1) the call closure of the runner's table-update entry point (static calls, interface calls and every closure created inside it — an over-approximation) contains Actions calls only to pass, ready, check, fold and pay; the manual API of the runner is outside that closure; (R2) each automated action is guarded by the hand allowing exactly that action, with the priority pass ≫ ready > check > fold (check only on the not-ready edge, fold only on the not-ready ∧ not-check edge); (R3) pay amounts are exactly the posted ante under the ante-requested event and the posted SB / BB / dealer blind under the blinds-requested event with the matching position guard; (R4) the automation runs only when the player is suspended or inside the task handed to the time bank with duration ActionTime × Second, on the not-cancelled edge. NOT decided: that the time bank fires no earlier than the duration.",
 		Rules: map[string]string{
-			"R1": "call closure of the auto-play entry point reaches only pass/ready/check/fold/pay",
+			"R1": "call closure of the auto-play entry point reaches only pass/ready/check/fold/pay; no known-nil error returned",
 			"R2": "guard ↔ action agreement and priority order",
 			"R3": "pay amounts are the posted ante / blind for the player's position",
 			"R4": "automation only when suspended or inside the action-time timer callback (not cancelled)",
